@@ -669,3 +669,5 @@ H("conn_handle_event_remote_check_native", ["C15"], "replay-only", "connection::
 H("conn_first_packet_credit_native", ["C07"], "replay-only", "connection::first_packet_credit_native",
   [("a", "u8"), ("b", "u8"), ("c", "u8")], 4, [],
   ["Connection::handle_first_packet"], "native replay body of E2 query e2_first_packet_credit")
+H("endpoint_reset_token_event_native", ["C08", "C09"], "replay-only", "endpoint::reset_token_event_native",
+  [("same_addr", "bool")], 4, [], ["Endpoint::handle_event (ResetToken, Drained)"], "native replay body of E2 query e2_endpoint_reset_token_event")
